@@ -3,6 +3,7 @@ package main
 import (
 	"fmt"
 	"math/rand"
+
 	"verif/harness/internal/drv"
 	"verif/harness/internal/mixed"
 )
@@ -18,23 +19,28 @@ func main() {
 		if err != nil {
 			return err
 		}
-		wd, err := mixed.New(w, rand.New(rand.NewSource(5)), mixed.Opts{Types: []string{"lm"}, Tag: "x"})
+		defer w.Kill()
+		wd, err := mixed.New(w, rand.New(rand.NewSource(5)), mixed.Opts{Types: []string{"lm", "nj", "kv"}, Tag: "x"})
 		if err != nil {
 			return err
 		}
-		for i := 0; i < 12; i++ {
-			wd.Step()
+		u := wd.Root
+		try := func(m, p string, body []byte) {
+			w.Watchdog = 20e9
+			r, err := w.HTTP(m, "/api/node/"+u+"/"+p, body)
+			fmt.Printf("%s %s -> %v %v\n", m, p, drv.Trunc(r.String(), 200), err)
 		}
-		for _, l := range []int{2, 20, 5, 7} {
-			seen := map[string]int{}
-			for i := 0; i < 20; i++ {
-				r, _ := w.Get(fmt.Sprintf("/api/node/%s:master/lm/sparsevol/%d?format=rles", wd.Root, l))
-				seen[mixed.Canon(r)]++
-			}
-			fmt.Println(l, seen)
-		}
-		w.Kill()
-		c.Case("a", true); c.Case("b", true)
+		try("POST", "lm/merge", []byte("[]"))
+		try("POST", "lm/merge", []byte("[5]"))
+		try("GET", "lm/proximity/5", nil)
+		try("GET", "lm/proximity/5_6", nil)
+		try("POST", "nj/key/1?u=a", []byte(`{"bodyid":1,"x":1,"x_time":5}`))
+		try("GET", "nj/all", nil)
+		try("POST", "nj/key/2?u=a", []byte(`{"bodyid":2,"y":1}`))
+		try("GET", "nj/fieldtimes", nil)
+		try("GET", "nj/key/2", nil)
+		c.Case("a", true)
+		c.Case("b", true)
 		return nil
 	})
 }
